@@ -230,6 +230,11 @@ def interp(ctx, aid, table):
                 raise
             except BaseException as e:  # noqa: BLE001
                 res = exc_data(e, ctx.errtext_limit)
+                if k == "propagate":
+                    # the exception is recorded and then leaves the body like in an unguarded user program
+                    ctx.rec(aid, oi, "ret", res)
+                    cur.op = None
+                    raise
                 e = None
             ctx.rec(aid, oi, "ret", res)
             cur.op = None
@@ -512,6 +517,11 @@ def do_op(ctx, aid, oi, table, op):
         _os._exit(op[1])
     if k == "raise_sys":
         raise SystemExit(op[1] if len(op) > 1 else 3)
+    if k == "raise_named":
+        import builtins as _bi
+        raise getattr(_bi, op[1])("body raised " + op[1])
+    if k == "propagate":
+        return do_op(ctx, aid, oi, table, op[1])
     if k == "ident":
         cur = s.current
         return ("ident", cur.id, bool(cur.is_main), cur.proc.name if cur.proc else None)
@@ -622,7 +632,7 @@ def _filedata(w):
 # ---------------------------------------------------------------------------
 
 VARIANTS = ("close_creator", "close_receiver", "drop_both", "cb_close", "close_both", "drop_creator", "cb_close_hold",
-            "close_creator_hold")
+            "close_creator_hold", "cb_drop_hold")
 NESTS = ("bare", "list", "tuple", "dict")
 
 
@@ -661,12 +671,12 @@ def _cycles(ctx, aid, oi, table, op):
         if creator == me:
             c = gw.newchannel()
             ids.append(c.id)
-            if variant in ("cb_close", "cb_close_hold"):
+            if variant.startswith("cb_"):
                 del got_cb[:]
                 c.setcallback(got_cb.append)
             via.send(("#IT:%s#" % tok, _nest(c, nest)))
             ack = via.receive()
-            if variant in ("cb_close", "cb_close_hold"):
+            if variant.startswith("cb_"):
                 # the item was sent before the ack on the same connection, callbacks run in wire order
                 item = got_cb[0] if got_cb else None
             else:
